@@ -15,7 +15,7 @@ TNext == l <= Len(Trace) /\ l' = l + 1
 TSpec == TInit /\ [][TNext]_l
 
 Step == Trace[l - 1]
-KnownFamily(r) == r.fam \in {"jsonschema", "openapi", "cue", "pipeline", "passes", "veneers", "sequences", "parameters", "cycles", "cyclepasses", "cycleveneers", "veneerpaths", "ifexpr", "discriminators", "handtypes", "drafts"}
+KnownFamily(r) == r.fam \in {"jsonschema", "openapi", "cue", "pipeline", "passes", "veneers", "sequences", "parameters", "cycles", "cyclepasses", "cycleveneers", "veneerpaths", "ifexpr", "discriminators", "handtypes", "handtypeveneers", "drafts"}
 V(r) == Violated(r) \cup (IF KnownFamily(r) THEN {} ELSE {"outside-universe"})
 
 Verdict == l = 1 \/ V(Step) = {} \/
